@@ -358,7 +358,9 @@ func CmdCheck(args []string) int {
 	}
 	ev.WallS = round3(time.Since(t0).Seconds())
 	b, _ := json.MarshalIndent(ev, "", " ")
-	if !*noEvidence {
+	// the evidence file describes the repository the registered commands check (/repo); runs against a
+	// scratch copy (self-test, seeded changes) still write replay files but never the evidence file
+	if !*noEvidence && filepath.Clean(*repo) == "/repo" {
 		os.WriteFile(filepath.Join(*verif, "evidence", claim.Property+".json"), b, 0o644)
 	}
 	for _, l := range lines {
